@@ -50,6 +50,29 @@ def declared_requirements(repo):
     raise ValueError("install_requires not found in setup.py")
 
 
+def declared_python(repo):
+    """(major, minor) lower bound of python_requires in setup.py"""
+    import re
+    tree = ast.parse(open(os.path.join(repo, "setup.py")).read())
+    for node in ast.walk(tree):
+        if isinstance(node, ast.keyword) and node.arg == "python_requires":
+            m = re.search(r">=\s*(\d+)\.(\d+)", ast.literal_eval(node.value))
+            if m:
+                return int(m.group(1)), int(m.group(2))
+    raise ValueError("python_requires lower bound not found in setup.py")
+
+
+def syntax_check(src, version):
+    """None if the source parses with the grammar of the given Python version (as far as ast's feature_version
+    models it: assignment expressions, positional-only parameters, pattern matching, parenthesised context
+    managers, exception groups, type statements, ...), else the SyntaxError message"""
+    try:
+        ast.parse(src, feature_version=version)
+        return None
+    except SyntaxError as e:
+        return "line %s: %s" % (e.lineno, e.msg)
+
+
 ARRAY_MAKERS = {"array", "asarray", "asanyarray", "zeros", "ones", "empty", "full", "arange", "linspace",
                 "logspace", "concatenate", "cumsum", "diff", "where", "zeros_like", "ones_like", "full_like",
                 "atleast_1d", "ravel", "sort", "unique", "copy", "broadcast_to", "roll", "interp", "abs", "real",
@@ -202,7 +225,21 @@ class FileRefs(ast.NodeVisitor):
         else:
             self.visit(n)
 
+    def _dynamic_import(self, node):
+        f = node.func
+        name = None
+        if isinstance(f, ast.Name) and f.id == "__import__":
+            name = "__import__"
+        elif isinstance(f, ast.Attribute) and f.attr == "import_module" and isinstance(f.value, ast.Name) \
+                and self.alias.get(f.value.id, "").split(".")[0] == "importlib":
+            name = "import_module"
+        if name and node.args and isinstance(node.args[0], ast.Constant) and isinstance(node.args[0].value, str):
+            mod = node.args[0].value
+            if mod.split(".")[0] not in INTERNAL and not mod.startswith("."):
+                self.imports.append((mod, node.lineno, self.guard > 0))
+
     def visit_Call(self, node):
+        self._dynamic_import(node)
         # getattr(mod, "name", default) is a guarded reference; getattr(mod, "name") an unguarded one
         if getattr(node.func, "id", "") == "getattr" and len(node.args) >= 2 \
                 and isinstance(node.args[0], ast.Name) and node.args[0].id in self.alias \
@@ -244,12 +281,16 @@ def generate(repo):
     if len(files) < 20:
         raise ValueError("unexpectedly few source files under %s" % pkg)
     refs, imports, env, unresolved_roots = [], [], {}, []
+    pyver = declared_python(repo)
+    syntax = []
     declared = declared_requirements(repo)
     if not set(declared) >= {"numpy", "scipy", "h5py"}:
         raise ValueError("unexpected install_requires: %s" % declared)
     for path in files:
         rel = os.path.relpath(path, repo)
-        tree = ast.parse(open(path).read(), filename=rel)
+        src = open(path).read()
+        syntax.append((rel, syntax_check(src, pyver)))
+        tree = ast.parse(src, filename=rel)
         v = FileRefs(rel)
         v.visit(tree)
         for mod, line, g in v.imports:
@@ -319,6 +360,11 @@ def generate(repo):
         "  ⟨%s, %s, %d, %s, %s, %s⟩" % (lean_str(m), lean_str(f), l, "true" if g else "false", "true" if o else "false",
                                            "true" if d else "false")
         for m, f, l, g, o, d in imports) + "]\n")
+    out.append("/-- lower bound of python_requires in setup.py -/\n")
+    out.append("def declaredPython : Nat × Nat := (%d, %d)\n" % pyver)
+    out.append("/-- per source file: does it parse with the grammar of the declared minimum Python (message if not) -/\n")
+    out.append("def syntaxTable : List (String × Option String) := [\n" + ",\n".join(
+        "  (%s, %s)" % (lean_str(f), "none" if m is None else "some " + lean_str(m)) for f, m in sorted(syntax)) + "]\n")
     out.append("/-- install_requires of setup.py -/\n")
     out.append("def declaredRequirements : List String := [%s]\n" % ", ".join(lean_str(d) for d in declared))
     out.append("/-- files documented as needing an optional dependency -/\n")
